@@ -77,7 +77,47 @@ theorem shape :
     Gen.deleteOnlyForOwnerOrAcquired = true ∧
     Gen.untrackedGo = ["MockWatcherAdapter.Updates", "StartEmbeddedNATSServer", "StartEmbeddedNATSServer", "kvElection.Stop",
       "kvElection.StopWithContext", "kvElection.StopWithContext", "kvElection.StopWithContext", "kvElection.StopWithContext",
-      "kvElection.heartbeatLoop", "kvElection.validateToken", "natsWatcherAdapter.Updates"] := by decide
+      "kvElection.StopWithContext", "kvElection.heartbeatLoop", "kvElection.validateToken", "natsWatcherAdapter.Updates"] := by decide
+
+/-! ### Time budget of the stop calls
+
+`StopWithContext` runs its phases (wait for the background goroutines, key deletion, wait for OnDemote) under one
+deadline: a phase that would pass the deadline is abandoned there.  `Stop` waits at most 5 s for the goroutines and
+then runs OnDemote. -/
+
+/-- Return time (relative to the call) of a stop call whose phases would take `ds`, with `el` already elapsed. -/
+def stopReturn (budget : Nat) : List Nat → Nat → Nat
+  | [], el => el
+  | d :: ds, el => if el + d ≤ budget then stopReturn budget ds (el + d) else budget
+
+/-- Whatever the phases take — a hung store, a callback that never returns — the call returns within its budget. -/
+theorem stop_within_budget (budget : Nat) (ds : List Nat) (el : Nat) (h : el ≤ budget) : stopReturn budget ds el ≤ budget := by
+  induction ds generalizing el with
+  | nil => exact h
+  | cons d ds ih =>
+    simp only [stopReturn]
+    split
+    · rename_i hle; exact ih _ hle
+    · exact Nat.le_refl _
+
+/-- … and when every phase fits, at the sum of the phases (nothing is cut short). -/
+theorem stop_returns_when_done (budget : Nat) (ds : List Nat) (el : Nat) (h : el + ds.sum ≤ budget) :
+    stopReturn budget ds el = el + ds.sum := by
+  induction ds generalizing el with
+  | nil => simp [stopReturn]
+  | cons d ds ih =>
+    simp only [stopReturn, List.sum_cons] at h ⊢
+    have h1 : el + d ≤ budget := by omega
+    simp only [h1, if_true]
+    rw [ih (el + d) (by omega)]
+    omega
+
+/-- The source has that structure (regenerated facts): one deadline, every wait under it, the deletion issued from a
+    goroutine; 5 s for `Stop` and as the default of `StopWithContext`. -/
+theorem stop_budget_shape : Gen.stopWaitsShareDeadline = true ∧ Gen.stopDeleteAsync = true ∧
+    Gen.stopWaitsFiveSeconds = true ∧ Gen.stopctxDefaultFiveSeconds = true := by decide
+
+example : stopReturn 50 [40, 60, 10] 0 = 50 ∧ stopReturn 50 [10, 20, 5] 0 = 35 := by decide
 
 
 end NLE.Theorems.C09
